@@ -31,7 +31,10 @@ SPEC = {
             "{until-cancelled, ready-at-once, fails, fails-before-ready, returns-early, slow-to-stop, fails-while-stopping, "
             "never-ready}: all ordered pairs of classes x {SIGINT, SIGTERM, SIGHUP} x signal placed before / between / after / at "
             "the same instant as the first task's scripted end, and random sets of 0-4 tasks with 0-2 signals at distinct instants "
-            "(25% racing a failure at the same instant); every run gets a last signal so that it ends. serve(): scripted listener "
+            "(25% racing a failure at the same instant); every run gets a last signal so that it ends. Notification socket: healthy, or failing (the datagram is recorded, then the write "
+            "returns an error) for every notification from the moment the first signal is delivered, or from the start -- half of the pair "
+            "grid is repeated with a failing socket, half of the random runs draw one: the sd_notify datagrams are best-effort, Serve must still "
+            "return nil after all tasks returned and the tasks must observe the right terminate() value. serve(): scripted listener "
             "results (0-45 net errors with durations, then closed / other error / nil / nothing), optional cancellation at an instant "
             "off every timer. Non-trivial: at least one task / interface; distinct by canonical input.",
     "nontrivial": _nontrivial,
